@@ -7,7 +7,7 @@
 From Coq Require Import List NArith Arith.
 Import ListNotations.
 From TV Require Import Lib.Obs C11.Model C11.Trace C11.Run C11.Proofs1 C11.Ledger C11.Proofs3 C11.Proofs4
-  C11.Proofs5 C11.Fuel C13.Run C13.Proofs C13.Check.
+  C11.Proofs5 C11.Fuel C13.Run C13.Proofs C13.Closing C13.Final C13.Check.
 
 (* No future is ever settled twice (the log of settlements is append-only, see below). *)
 Theorem C13_settled_at_most_once : forall c m mw p, run_ok (init c m mw) p ->
@@ -53,6 +53,26 @@ Proof.
 Qed.
 Print Assumptions C13_close_settles_everything.
 
+(* Step level: whatever operation makes the stream closed (a local close, a read call or readiness
+   event that meets EOF / reset / an error / an unsatisfiable read / a full buffer, a failing write or
+   connect, the deferred close after an ERROR event), at the end of that step nothing is pending and
+   every future created so far - including the one returned by this very call - is settled. *)
+Theorem C13_closing_step_settles_everything : forall c m mw p o, run_ok (init c m mw) p ->
+  let s := run (init c m mw) p in
+  op_ok s o -> closed s = false -> closed (fst (step s o)) = true ->
+  held (fst (step s o)) = [] /\
+  (forall f, f < next_fid (fst (step s o)) -> done_in (log (fst (step s o))) f = true) /\
+  NoDup (done_fids (log (fst (step s o)))).
+Proof.
+  intros c m mw p o H s Ho Hc Hc'. destruct (reachable_spec c m mw p H) as [I L].
+  destruct (step_spec o s I L Ho) as [_ M]. pose proof (linv_moves _ _ M L) as L'.
+  pose proof (closing_step_leaves_nothing_pending o s Hc Hc') as Hh.
+  split; [exact Hh|]. split; [|apply (li_donenodup _ L')].
+  intros f Hf. destruct (li_tracked _ L' f Hf) as [X|X]; auto.
+  change (lheld (led_of (fst (step s o)))) with (held (fst (step s o))) in X. rewrite Hh in X. destruct X.
+Qed.
+Print Assumptions C13_closing_step_settles_everything.
+
 (* What the pending read gets: read_until_close gets everything buffered; a read that
    _find_read_pos can satisfy from the buffer gets that data; anything else gets
    StreamClosedError carrying the real error (the cause's error, or the stream's earlier error). *)
@@ -94,6 +114,18 @@ Print Assumptions C13_read_after_close_only_from_buffer.
 Theorem C13_close_is_final : forall e s, closed (close e s) = true.
 Proof. exact closed_after_close. Qed.
 Print Assumptions C13_close_is_final.
+
+(* A closed stream has no IOLoop handler registered - in every state reachable by ANY operation
+   sequence (no premise) - so readiness events after the close are never processed. *)
+Theorem C13_closed_stream_has_no_handler : forall c m mw p,
+  closed (run (init c m mw) p) = true -> io_state (run (init c m mw) p) = None.
+Proof. intros c m mw p. apply (closed_has_no_handler p (init c m mw)). intros H; discriminate H. Qed.
+Print Assumptions C13_closed_stream_has_no_handler.
+
+Theorem C13_events_after_close_are_ignored : forall r w e so fd s, closed s = true ->
+  step s (OEvent r w e so fd) = (s, RetNone).
+Proof. exact events_after_close_are_ignored. Qed.
+Print Assumptions C13_events_after_close_are_ignored.
 
 Theorem C13_model_passes_check : forall c m mw p, run_ok (init c m mw) p ->
   check_case (c, m, mw, p) (run_case (c, m, mw, p)) = true.
